@@ -393,11 +393,11 @@ func (w *StoreWrite) Full(p *Program) string {
 
 // StoreRead is one KVStore read site (Get/Has/Iterator/prefix iterator) in scope.
 type StoreRead struct {
-	Fn    *ssa.Function
-	Ins   ssa.CallInstruction
-	Op    string // Get | Has | Iterator | ReverseIterator | PrefixIterator | ReversePrefixIterator
-	Full  string
-	Pos   token.Pos
+	Fn   *ssa.Function
+	Ins  ssa.CallInstruction
+	Op   string // Get | Has | Iterator | ReverseIterator | PrefixIterator | ReversePrefixIterator
+	Full string
+	Pos  token.Pos
 }
 
 var storeReadsCache []*StoreRead
